@@ -103,6 +103,22 @@ def verify(engine: Engine, spec: FunctionSpec) -> FunctionResult:
             res.out_of_reach = str(e)
             res.obligations = []
             return res
+        except TypeError as e:
+            if "cannot convert <unbound>" in str(e):
+                # the contract (an invariant, a post-condition) reads a local of the function that is not assigned on this path:
+                # the code was restructured under the contract - stale contract, undecided (never a violation, never a crash)
+                res.out_of_reach = "contract stale: it reads a local variable that is unbound on this path (the function was restructured)"
+                res.obligations = []
+                return res
+            if "cannot convert" in str(e) and "to z3" in str(e):
+                # the code hands the contract's model a value of a kind it does not describe (e.g. a tuple where the
+                # representation invariant speaks of an int): the function is outside the contract's reach - undecided
+                res.out_of_reach = f"value outside the contract's model of the data ({str(e)[:120]})"
+                res.obligations = []
+                return res
+            res.error = traceback.format_exc()
+            res.obligations = []
+            return res
         except Exception:  # noqa: BLE001
             res.error = traceback.format_exc()
             res.obligations = []
